@@ -417,6 +417,17 @@ def e2e_configs(tier):
         dict(base, H=33, W=47, blocksize=[(16, 32), 16], chunks=(10, 47), transform=[3.0, 4.0, 10.0, 4.0, -3.0, 50.0]),
         dict(base, H=70, W=50, axis="SYX", S=2, chunks=(32, 32), band_chunk=2, dtype="uint8", scheduler="shuffle:11",
              stats=True),
+        # nodata 0 (a falsy value), given as `nodata` or as `_FillValue` attribute
+        dict(base, H=50, W=70, dtype="uint8", nodata=0),
+        dict(base, H=33, W=40, dtype="int16", nodata=0, nodata_attr="_FillValue", compression="none"),
+        # source arrays in non-native byte order
+        dict(base, H=50, W=70, dtype=">u2"),
+        dict(base, H=33, W=40, axis="SYX", S=2, dtype=">i4", compression="none", band_chunk=1),
+        dict(base, H=20, W=40, axis="YXS", S=3, dtype=">f8", predictor=False),
+        # the same task graph computed twice: the second file is the one examined
+        dict(base, H=50, W=70, twice=True),
+        dict(base, H=40, W=100, chunks=(40, 100), blocksize=[(16, 32), 16], dtype="uint8", compression="none",
+             min_write_sz=256, spill_sz=256, scheduler="threads:3", twice=True),
     ]
     extra = 14 if tier == "quick" else 300
     for i in range(extra):
@@ -440,6 +451,12 @@ def e2e_configs(tier):
             c["predictor"] = rng.choice([False, True])
         if rng.random() < 0.3:
             c["nodata"] = rng.choice([0, 1, 255 if np.dtype(c["dtype"]).kind == "u" else -3])
+            if rng.random() < 0.3:
+                c["nodata_attr"] = "_FillValue"
+        if rng.random() < 0.12 and np.dtype(c["dtype"]).itemsize > 1:
+            c["dtype"] = np.dtype(c["dtype"]).newbyteorder(">").str       # e.g. '>u2'
+        if rng.random() < 0.1:
+            c["twice"] = True
         if ax == "SYX":
             c["band_chunk"] = rng.choice([1, -1])
         c["scheduler"] = rng.choice(["sync", f"shuffle:{i}", f"shuffle:{i + 100}", "threads:2", "threads:4"])
@@ -724,7 +741,7 @@ def check_file(cfg, rec):
     else:
         a3, p3 = a.reshape(S, Hp, Wp), pix
     for name, arr in (("tifffile", a3), ("rasterio", b)):
-        if arr.shape != (p3.shape[0], Hp, Wp) or arr.dtype != pix.dtype:
+        if arr.shape != (p3.shape[0], Hp, Wp) or arr.dtype.newbyteorder("=") != pix.dtype.newbyteorder("="):
             msgs.append(f"{name}: decoded {arr.shape} {arr.dtype}, want {(p3.shape[0], Hp, Wp)} {pix.dtype}")
         elif not np.array_equal(arr[:, :H, :W], p3):
             bad = np.argwhere(arr[:, :H, :W] != p3)[0].tolist()
